@@ -539,8 +539,19 @@ class JSTypedArray(JSObject):
         return int(value).to_bytes(self._element_size, "little", signed=self._signed)
 
     def _coerce_value(self, value):
-        """Coerce value to the appropriate type. Override in subclasses."""
-        return int(value) if isinstance(value, (int, float)) else 0
+        """ToNumber, then the modular conversion of the integer element types
+        (ToInt8 ... ToUint32): NaN and the infinities become 0, fractions are
+        truncated, the rest wraps around.  Other kinds override this."""
+        number = to_number(value)
+        if isinstance(number, float):
+            if math.isnan(number) or math.isinf(number):
+                return 0
+            number = int(number)
+        bits = 8 * self._element_size
+        number &= (1 << bits) - 1
+        if self._signed and number >= 1 << (bits - 1):
+            number -= 1 << bits
+        return number
 
     def __repr__(self) -> str:
         return f"{self._type_name}({[self.get_index(i) for i in range(self._length)]})"
@@ -553,17 +564,6 @@ class JSInt32Array(JSTypedArray):
     _type_name = "Int32Array"
     _signed = True
 
-    def _coerce_value(self, value):
-        """Coerce to signed 32-bit integer."""
-        if isinstance(value, (int, float)):
-            v = int(value)
-            # Handle overflow to signed 32-bit
-            v = v & 0xFFFFFFFF
-            if v >= 0x80000000:
-                v -= 0x100000000
-            return v
-        return 0
-
 
 class JSUint32Array(JSTypedArray):
     """JavaScript Uint32Array."""
@@ -571,12 +571,6 @@ class JSUint32Array(JSTypedArray):
     _element_size = 4
     _type_name = "Uint32Array"
     _signed = False
-
-    def _coerce_value(self, value):
-        """Coerce to unsigned 32-bit integer."""
-        if isinstance(value, (int, float)):
-            return int(value) & 0xFFFFFFFF
-        return 0
 
 
 class JSFloat64Array(JSTypedArray):
@@ -587,10 +581,8 @@ class JSFloat64Array(JSTypedArray):
     _signed = False
 
     def _coerce_value(self, value):
-        """Coerce to float."""
-        if isinstance(value, (int, float)):
-            return float(value)
-        return 0.0
+        """ToNumber as a double."""
+        return float(to_number(value))
 
     def _unpack_value(self, data: bytes):
         """Unpack bytes to float64."""
@@ -612,12 +604,6 @@ class JSUint8Array(JSTypedArray):
     _type_name = "Uint8Array"
     _signed = False
 
-    def _coerce_value(self, value):
-        """Coerce to unsigned 8-bit integer."""
-        if isinstance(value, (int, float)):
-            return int(value) & 0xFF
-        return 0
-
 
 class JSInt8Array(JSTypedArray):
     """JavaScript Int8Array."""
@@ -625,15 +611,6 @@ class JSInt8Array(JSTypedArray):
     _element_size = 1
     _type_name = "Int8Array"
     _signed = True
-
-    def _coerce_value(self, value):
-        """Coerce to signed 8-bit integer."""
-        if isinstance(value, (int, float)):
-            v = int(value) & 0xFF
-            if v >= 0x80:
-                v -= 0x100
-            return v
-        return 0
 
 
 class JSInt16Array(JSTypedArray):
@@ -643,15 +620,6 @@ class JSInt16Array(JSTypedArray):
     _type_name = "Int16Array"
     _signed = True
 
-    def _coerce_value(self, value):
-        """Coerce to signed 16-bit integer."""
-        if isinstance(value, (int, float)):
-            v = int(value) & 0xFFFF
-            if v >= 0x8000:
-                v -= 0x10000
-            return v
-        return 0
-
 
 class JSUint16Array(JSTypedArray):
     """JavaScript Uint16Array."""
@@ -659,12 +627,6 @@ class JSUint16Array(JSTypedArray):
     _element_size = 2
     _type_name = "Uint16Array"
     _signed = False
-
-    def _coerce_value(self, value):
-        """Coerce to unsigned 16-bit integer."""
-        if isinstance(value, (int, float)):
-            return int(value) & 0xFFFF
-        return 0
 
 
 class JSUint8ClampedArray(JSTypedArray):
@@ -675,16 +637,12 @@ class JSUint8ClampedArray(JSTypedArray):
 
     def _coerce_value(self, value):
         """Coerce to clamped unsigned 8-bit integer (0-255)."""
-        if isinstance(value, (int, float)):
-            # Round half to even for 0.5 values
-            v = round(value)
-            # Clamp to 0-255
-            if v < 0:
-                return 0
-            if v > 255:
-                return 255
-            return v
-        return 0
+        number = to_number(value)
+        if number != number or number <= 0:  # NaN, negatives, -0
+            return 0
+        if number >= 255:
+            return 255
+        return round(number)  # round half to even
 
 
 class JSFloat32Array(JSTypedArray):
@@ -698,11 +656,12 @@ class JSFloat32Array(JSTypedArray):
         """Coerce to 32-bit float."""
         import struct
 
-        if isinstance(value, (int, float)):
+        number = float(to_number(value))
+        try:
             # Convert to float32 and back to simulate precision loss
-            packed = struct.pack("<f", float(value))
-            return struct.unpack("<f", packed)[0]
-        return 0.0
+            return struct.unpack("<f", struct.pack("<f", number))[0]
+        except OverflowError:  # beyond the float32 range: rounds to an infinity
+            return math.copysign(math.inf, number)
 
     def _unpack_value(self, data: bytes):
         """Unpack bytes to float32."""
